@@ -94,6 +94,34 @@ theorem fmtColorSimple_hash (p : Prefs) (hsp : isBlank p.spacer = true) (t : Cps
   rw [outValue_outAppend_text p hsp _ .other hm (by simp) false]
   rw [outValue_outAppend_text p hsp _ .other hm (by simp) false]
 
+/-- the stored values the round-trip statement is about: simple escapes `\c` with `c` not a hex digit, not a
+line break and not a double quote (the last is `C18-escaped-dquote`), a lone backslash only at the very end, and
+not ending in an escaped backslash (`C18-url-trailing-backslash`) -/
+def storedOk : Cps → Bool
+  | [] => true
+  | [_] => true
+  | c :: d :: t =>
+    if c = cBackslash then
+      !(d = cQuote || d = 0x0A || d = 0x0D || d = 0x0C || isHexDigit d) && !(d = cBackslash && t.isEmpty) && storedOk t
+    else storedOk (d :: t)
+
+/-- all strings over `alpha` of length `≤ n` -/
+def allStrings (alpha : List Nat) : Nat → List Cps
+  | 0 => [[]]
+  | n + 1 => [] :: (allStrings alpha n).flatMap (fun s => alpha.map (· :: s))
+
+def strAlphabet : List Nat := [0x61, 0x22, 0x27, 0x5C, 0x0A, 0x0D, 0x20, 0x28, 0x34, 0x7A]
+
+def stringRoundTripOn (rs : List Cps) : Bool :=
+  rs.all fun r => !storedOk r || cssStringDenote (helperString r) == some (storedDenote r)
+
+/-- no control character the tokenizer rejects in an unquoted URL (`C18-url-control-char`) -/
+def noUrlControl (r : Cps) : Bool := r.all fun c => isUrlChar c || forbiddenInUri c || c = cBackslash
+
+def urlRoundTripOn (rs : List Cps) : Bool :=
+  rs.all fun r => !(storedOk r && noUrlControl r) || writtenUrlDenote (helperUri r) == some (storedDenote r)
+
+
 /-- look a name up in the independent CSS3 table -/
 def css3Lookup (name : Cps) : List (Cps × Nat × Nat × Nat × Nat) → Option (Nat × Nat × Nat × Nat)
   | [] => none
